@@ -5,7 +5,7 @@ from pathlib import Path
 import os
 base = Path(os.environ.get('MUT_BASE', '/tmp/mut'))
 out = base / 'out'; dst = Path('/verif/seeded')
-for d in sorted(out.glob('C*/[a-f]')):
+for d in sorted(out.glob('C*/[a-h]')):
     c = d / 'confirm.json'
     if not c.exists():
         continue
@@ -20,7 +20,7 @@ for d in sorted(out.glob('C*/[a-f]')):
             shutil.copy(f, t / f.name)
     meta = json.loads((d / 'meta.json').read_text()) if (d / 'meta.json').exists() else {}
     meta['breaks_property'] = d.parent.name
-    meta['confirmed_by_me'] = dict(where=f'scratch worktree {base}/{d.parent.name} at ' + ('pinned commit d32b495' if str(base) == '/tmp/mut' else 'the repaired tree e0d3d6e'),
+    meta['confirmed_by_me'] = dict(where=f'scratch worktree {base}/{d.parent.name} at ' + ('pinned commit d32b495' if str(base) == '/tmp/mut' else 'the repaired tree ' + os.popen('git -C %s/%s rev-parse --short HEAD' % (base, d.parent.name)).read().strip()),
                                    ran=[('MUT_BASE=%s ' % base if str(base) != '/tmp/mut' else '') + 'tools/confirm_mutant.sh %s %s' % (d.parent.name, d.name)], **conf)
     old = json.loads((t / 'meta.json').read_text()) if (t / 'meta.json').exists() else {}
     for k in ('detected_by', 'check_result'):
